@@ -205,3 +205,12 @@ Example filelock_run :
                       [FRun 0; FRun 1; FRun 0; FRun 1; FRun 1] = Some (st, ev)
                 /\ ev = [FEnter KW 0; FExit KW 0; FEnter KW 1; FExit KW 1] /\ file st = Absent.
 Proof. eexists. eexists. split; [vm_compute; reflexivity|split; reflexivity]. Qed.
+
+(* _FileWriteWith: whatever happens in the body and in the exit flush, the
+   lock is released last and the lock file is gone afterwards *)
+Lemma withwrite_released_lemma r :
+  last (ww_exit r) WFlushWrite = WRelease /\ ww_file_after r = Absent.
+Proof.
+  unfold ww_file_after, ww_exit, ww_flush.
+  destruct r as [b t e x f]; destruct b, t, e, x; cbn; split; reflexivity.
+Qed.
